@@ -319,3 +319,10 @@ add("rd_getblock_dfcc", ["C12", "C11", "C01"], ["tu/reader_getblock_dfcc.c"], "h
     unwind=16, timeout=900, slice=1, strength="U", functions=["get_block"],
     assumptions=["decoders, checksum, decompression and block_init replaced by capture contracts (own checks: c16_*, C17, C15, blk_*); file size <= 2^40, any offset inside it, any length prefix",
                  "a checksum mismatch / failed decompression stops at the function's own assert (permitted loud stop)"])
+# ---------------------------------------------------------------- fileset reload rules under DFCC (no bound on tables / handles / histories)
+for fn in ("reload", "reload_now"):
+    add(f"fs_{fn}_dfcc", ["C07"], ["tu/fileset_dfcc.c"], f"h_fileset_{fn}_dfcc", mode="dfcc", enforce=f"mtbl_fileset_{fn}/mtbl_fileset_{fn}__spec",
+        replace=["my_fileset_reload/my_fileset_reload__cap", "fs_reinit_merger/fs_reinit_merger__cap", "my_gettime/my_gettime__cap"], unwind=16, timeout=900, slice=1, strength="U",
+        functions=[f"mtbl_fileset_{fn}"],
+        assumptions=["my_fileset_reload replaced by its contract over a ghost generation (bumped exactly when a table is loaded or unloaded, as fs_load / fs_unload count; own check: myfs_reload_step), fs_reinit_merger by 'merger built from the current generation' (own check: fs_*_step, bounded in the number of tables)",
+                     "monotonic clock whose value differs from every timestamp handed out before (a timestamp identifies a generation)", "handle invariant H assumed on entry and re-established: every history of reloads through any handle"])
